@@ -78,9 +78,15 @@ def _classes():
 
 
 def ref_enc(name, vals):
+    """bytes per the documented layout, or None when the values do not fit it at all"""
+    if len(vals) != len(REF[name]):
+        return None
     out = b""
     for w, v in zip(REF[name], vals):
-        out += v if isinstance(w, tuple) else v.to_bytes(w, "big")
+        try:
+            out += bytes(v) if isinstance(w, tuple) else v.to_bytes(w, "big")
+        except (OverflowError, TypeError, AttributeError):
+            return None
     return out
 
 
@@ -185,7 +191,8 @@ def oracle(case, classes=None):
         if got != vals or (dec[0] == "ok" and list(getattr(dec[1], "_fields", fnames)) != list(fnames)):
             out.append((f"headers:{name}:roundtrip", repr(got), repr(vals), "decode(encode(*fields)) != fields"))
         if name in REF and data != ref_enc(name, vals):
-            out.append((f"headers:{name}:ref-encode", data.hex(), ref_enc(name, vals).hex(), "bytes differ from the documented layout (network byte order)"))
+            out.append((f"headers:{name}:ref-encode", data.hex(), (ref_enc(name, vals) or b"").hex() or "does not fit the documented field widths",
+                        "bytes differ from the documented layout (network byte order)"))
         if case.get("doc") and data.hex() != case["doc"]:
             out.append((f"headers:{name}:doc-vector", data.hex(), case["doc"], "bytes differ from the worked example in protocols.md"))
     elif case["kind"] == "buf":
@@ -202,7 +209,11 @@ def oracle(case, classes=None):
 
 
 def run(ctx, only=None):
-    classes = _classes()
+    try:
+        classes = _classes()
+    except Exception as e:  # changed code the layout reader cannot interpret: report, do not crash
+        ctx.disagree({"step": "discover defpacket classes"}, f"{type(e).__name__}: {e}"[:300], "layouts readable", where="headers layout discovery")
+        return
     cases = only if only is not None else gen_cases(ctx, classes)
     lines, plan = [], []
     for name in sorted(classes):
